@@ -34,3 +34,34 @@ package provider
 //@   loop 1 invariant[keys_only_consumed] chanPending(kch) <= atloop(0, chanPending(kch)) && !allCidsProcessed
 //@   site[announce_only_allowed] builtin:append : validKey(s.allowlist, c) && len(arg1) == 1 && arg1[0] == cidHash(c)
 //@   site[non_empty_batches] call:doProvideMany : len(arg2) > 0
+
+// ---- C44: the prioritized key provider ------------------------------------------------------
+// inSet(s, c): the CID set s contains c
+//@ ghost inSet(s *cid.Set, c cid.Cid) bool
+//@ func ext (*github.com/ipfs/go-cid.Set).Has
+//@   ensures result == inSet(s, c)
+//@ func ext (*github.com/ipfs/go-cid.Set).Visit
+//@   modifies inSet(s, c)
+//@   ensures inSet(s, c) && result == !old(inSet(s, c))
+//@ func ext github.com/ipfs/go-cidutil.NewSet
+//@   ensures result != nil && fresh(result)
+
+// handleStream (free variables: visited, ctx, outCh): a key is forwarded only if it is not in the
+// visited set, and it is recorded there (for all streams but the last) once it has been sent
+//@ func NewPrioritizedProvider$1$1$1
+//@   prop C44
+//@   arith int-assumed
+//@   modifies all
+//@   dyn callparam:stream noeffect
+//@   site[suppress_already_emitted] select-send:outCh : !inSet(visited, arg0)
+//@   site[record_what_was_sent] call:Set.Visit : markVisited && arg0 == visited
+
+// the goroutine (free variables: streams, ctx, outCh): one visited set serves all streams - it is
+// never replaced, so keys emitted by an earlier stream stay suppressed - and every stream but
+// the last records what it emits
+//@ func NewPrioritizedProvider$1$1
+//@   prop C44
+//@   arith int-assumed
+//@   modifies all
+//@   site[every_stream_sees_the_same_visited_set] call:NewPrioritizedProvider$1$1$1 : visited == res("call:NewSet#0", 0)
+//@   site[all_but_last_record] call:NewPrioritizedProvider$1$1$1 : arg1 == (i < len(streams) - 1)
